@@ -116,9 +116,9 @@ func cmdCheck(args []string) int {
 	e.Tier = *tier
 	e.Seed = seed
 	e.Verbose = *verbose
-	e.Timeout = 45 // slowest obligation on the unchanged tree: ~15 s under load
+	e.Timeout = 90 // slowest obligation on the unchanged tree: ~20 s when the machine is otherwise idle
 	if *tier == "thorough" {
-		e.Timeout = 120
+		e.Timeout = 180
 	}
 	loadS := time.Since(start).Seconds()
 	rc := 0
